@@ -101,18 +101,34 @@ WEAK = [
     ('new_file', (), {'encoding': 'utf\u20138'}),
 ]
 
-ENCS = [None, None, 'utf-16', 'latin-1', 'utf-32-be']
+ENCS = [None, None, 'utf-16', 'latin-1', 'utf-32-be', None, 'ANSI_X3.4-1968',
+        'iso-8859-1', 'IBM437', 'utf_8', None, 'US-ASCII', 'cp1252',
+        'csISOLatin1', 'UTF-8', 'l1', 'iso8859.1']
 
 
 def valid_args(call, step):
     enc = ENCS[step % len(ENCS)]
     kw = {'encoding': enc} if enc else {}
+    positional = step % 5 == 3      # documented parameter order, no keywords
     if call == 'write_preamble':
-        return ('pré %d\nline\n' % step,), dict(kw, indent=(step % 3) * 2)
+        # non-ASCII text only when the section's OWN encoding can carry it
+        # (an inherited one may be an ASCII alias from an earlier container)
+        wide = enc and 'ASCII' not in enc.upper() and \
+            enc != 'ANSI_X3.4-1968'
+        text = ('pré %d\nline\n' if wide else 'pre %d\nline\n') % step
+        if positional:
+            return (text, enc, (step % 3) * 2), {}
+        return (text,), dict(kw, indent=(step % 3) * 2)
     if call == 'write_meta':
+        if positional:
+            return ({'step': step, 'k': 'é'}, enc, 'json'), {}
         return ({'step': step, 'k': 'é'},), kw
     if call == 'write_diff':
+        if positional:
+            return (b'-a\n+b %d\n' % step, ('text', 'binary')[step % 2]), {}
         return (b'-a\n+b %d\n' % step,), {}
+    if positional and enc:
+        return (enc,), {}
     return (), kw
 
 
@@ -138,6 +154,8 @@ class Model(object):
     def apply(self, call, args, kwargs):
         sid = self.target(call)
         doc = self.doc
+        if call in ('new_change', 'new_file') and args:
+            kwargs = dict(kwargs, encoding=args[0])
         if call == 'new_change':
             doc['changes'].append({'encoding': kwargs.get('encoding'),
                                    'files': []})
@@ -145,6 +163,14 @@ class Model(object):
             doc['changes'][-1]['files'].append(
                 {'encoding': kwargs.get('encoding')})
         else:
+            names = {'write_preamble': ('text', 'encoding', 'indent',
+                                        'line_endings', 'mimetype'),
+                     'write_meta': ('metadata', 'encoding', 'meta_format'),
+                     'write_diff': ('content', 'diff_type', 'encoding',
+                                    'line_endings')}[call]
+            kwargs = dict(kwargs)
+            for n, v in zip(names[1:], args[1:]):
+                kwargs[n] = v
             if self.depth == 0:
                 cont = doc
             elif self.depth == 1:
